@@ -19,6 +19,8 @@ Encodings shared with coq/Run/C19_run.v:
 """
 import datetime
 import decimal
+import glob
+import json
 import os
 import pickle
 import time
@@ -26,7 +28,7 @@ import time
 os.environ['TZ'] = 'UTC'
 time.tzset()
 
-from common.coqlit import Err  # noqa: E402
+from common.coqlit import Err, uncanon  # noqa: E402
 from pysparkling import Context  # noqa: E402
 from pysparkling.sql import types as T  # noqa: E402
 from pysparkling.sql.schema_utils import infer_schema_from_list  # noqa: E402
@@ -61,6 +63,8 @@ ASSUMPTIONS = [
     'map keys are hashable atoms; rows are Row objects (tuples at the top level in some explicit-schema cases); '
     'damaged JSON descriptions keep boolean flags boolean and never contain pyClass (user-defined types are out of scope)',
     'Decimal, date, datetime payloads are opaque to the model (identified by string / ordinal / microseconds)',
+    'values generated for a long column are 64-bit integers (a Python int beyond that is inferred as LongType and then '
+    'rejected by the verifier, as in Spark)',
 ]
 TRUSTED = ['translator/kernels/c19.py (tables emitted as Gallina text from the ast of sql/types.py)',
            'py/c19.py encoders of type trees, JSON values and Python values; coq/Run/C19_run.v decoders']
@@ -954,9 +958,19 @@ def merge_cases(rng, trees, n):
     return cases
 
 
+def corpus_cases():
+    """corpus/C19/*.json: replays of repaired findings and minimised past disagreements; they run first."""
+    root = os.path.join(os.environ.get('VERIF_ROOT', '/verif'), 'corpus', 'C19')
+    out = []
+    for path in sorted(glob.glob(os.path.join(root, '*.json'))):
+        with open(path) as f:
+            out.append(uncanon(json.load(f)['case']))
+    return out
+
+
 def generate(rng, tier):
     quick = tier == 'quick'
-    cases = []
+    cases = corpus_cases()
     # ---- JSON round trip: depth 0 and 1 exhaustively, depth 2 exhaustively (thorough) / sampled (quick), depth 3 sampled
     for e in LEAVES:
         cases.append(('json', e))
